@@ -109,14 +109,14 @@ func writerFlagAgreement(c *an.Ctx) {
 		return t
 	}
 	isFlagStore := func(cc *ssa.CallCommon) (int64, bool) {
-		obj := an.CalleeObj(cc)
-		if obj == nil || obj.Pkg() == nil || obj.Pkg().Path() != "sync/atomic" || obj.Name() != "StoreUint32" || len(cc.Args) != 2 {
+		a, isA := an.AtomicOpOf(cc)
+		if !isA || a.Kind != "store" || a.Val == nil {
 			return 0, false
 		}
-		if fv := an.PathOf(cc.Args[0]).Last(); fv == nil || fv.Origin() != flag.Origin() {
+		if fv := an.PathOf(a.Addr).Last(); fv == nil || fv.Origin() != flag.Origin() {
 			return 0, false
 		}
-		k, ok := an.ConstInt(cc.Args[1])
+		k, ok := an.ConstInt(a.Val)
 		if !ok {
 			return -1, true
 		}
